@@ -175,12 +175,41 @@ def opC12NewRule (args : List W) : String :=
     | _, _, _, _, _, _, _, _ => "bad-decode"
   | _ => "bad-arity"
 
+/-! ### The text-level helpers one by one (`c04.units`) -/
+
+def outPE {α} (f : α → String) (x : PE α) : String :=
+  match x with
+  | .ok a => f a
+  | .error .err => "err"
+  | .error .panic => "PANIC"
+
+def opC04Units (op : String) (args : List W) : Option String :=
+  match op, args with
+  | "c04.domainname", [s] => some <|
+    match s.bytes? with
+    | some s => outPE outBool (isDomainNameC s) ++ " -"
+    | none => "bad-decode"
+  | "c04.split", [s, sep, esc, pres] => some <|
+    match s.bytes?, sep.nat?, esc.nat?, pres.bool? with
+    | some s, some sep, some esc, some pres =>
+      outPE (fun l => (encStrs l).replace " " ",") (splitWithEscapeCharacter s sep.toUInt8 esc.toUInt8 pres) ++ " -"
+    | _, _, _, _ => "bad-decode"
+  | "c04.ruletext", [s] => some <|
+    match s.bytes? with
+    | some s => outPE (fun (p, o, wl) => "(" ++ outBytes p ++ "," ++ outBytes o ++ "," ++ outBool wl ++ ")") (parseRuleText s) ++ " -"
+    | none => "bad-decode"
+  | "c04.shortcut", [s] => some <|
+    match s.bytes? with
+    | some s => outPE outBytes (findShortcut s) ++ " -"
+    | none => "bad-decode"
+  | _, _ => none
+
 def dispatchE (op : String) (args : List W) : Option String :=
   match op with
   | "c04.match" => some (opC04Match args)
   | "c04.parse" => some (opC04Parse args)
   | "c04.textmatch" => some (opC04TextMatch args)
   | "c12.newrule" => some (opC12NewRule args)
-  | _ => none
+  | _ => opC04Units op args
 
 end UF.Ops
